@@ -47,9 +47,9 @@ prop('C08', bounded=['names'],
 prop('C16', bounded=['mllp_d'],
      explanation='framing contract of to_mllp, routing contract of _route_message; the real server on loopback for every '
                  'short splitting of the frame and concurrent clients (bounded). Interleavings are not explored.')
-prop('C17', bounded=['robust'],
+prop('C17', ground=['astpass:c17_forwarding'], bounded=['robust'],
      explanation='reads-clauses on the default resolvers (a default is consulted only when the argument is None) + '
                  'package-wide forwarding pass over the AST + call corpus under every default configuration (bounded)')
-prop('C19', bounded=['robust'],
+prop('C19', ground=['astpass:c19_ownership'], bounded=['robust'],
      explanation='sufficient frame condition: no function reachable from parse/build/encode/validate writes a process-wide '
                  'object (ownership pass over the AST + digest of the process-wide objects around a call corpus + threads)')
